@@ -180,9 +180,9 @@ package security
 //@   ensures key_always_attempted: [C03 C10] ecdhGenCount == old(ecdhGenCount) + 1
 //@   ensures key_advertised: [C03 C10] !ecdhGenFailed ==> result.ecdhPrivKey != nil && len(result.config.ECDHPublicKey) > 0
 //@   ensures shared_config_untouched: config.ECDHPublicKey == old(config.ECDHPublicKey)
-//@   ensures fresh(result) && result.stream == s && !result.sessionResumed
-//@   ensures private_config: result.config != nil && (result.ecdhPrivKey != nil ==> result.config != config && fresh(result.config))
-//@   ensures policy_copied: result.config.Authentication == config.Authentication && result.config.Encryption == config.Encryption && result.config.Integrity == config.Integrity && result.config.Command == config.Command && result.config.SecurityTag == config.SecurityTag && result.config.SessionCache == config.SessionCache && result.config.PeerName == config.PeerName && result.config.SessionID == config.SessionID
+//@   ensures [shared] fresh(result) && result.stream == s && !result.sessionResumed
+//@   ensures private_config: [shared] result.config != nil && (result.ecdhPrivKey != nil ==> result.config != config && fresh(result.config))
+//@   ensures policy_copied: [shared] result.config.Authentication == config.Authentication && result.config.Encryption == config.Encryption && result.config.Integrity == config.Integrity && result.config.Command == config.Command && result.config.SecurityTag == config.SecurityTag && result.config.SessionCache == config.SessionCache && result.config.PeerName == config.PeerName && result.config.SessionID == config.SessionID
 
 // ---- decoder safety (C13): preconditions of helpers whose arguments size an allocation ---------
 
